@@ -19,7 +19,7 @@ from typing import cast, Any, ClassVar, Optional, Union
 
 import elementpath.aliases as ta
 
-from elementpath.helpers import upper_camel_case, is_ncname, ordinal
+from elementpath.helpers import SPACES_OR_COMMENTS, upper_camel_case, is_ncname, ordinal
 from elementpath.exceptions import ElementPathTypeError, \
     ElementPathValueError, MissingContextError, xpath_error
 from elementpath.namespaces import XML_NAMESPACE, XSD_NAMESPACE, XPATH_FUNCTIONS_NAMESPACE, \
@@ -313,7 +313,7 @@ class XPath2Parser(XPath1Parser):
             'symbol': symbol,
             'nargs': 1,
             'label': 'constructor function',
-            'pattern': r'\b%s(?=\s*\(|\s*\(\:.*\:\)\()' % symbol,
+            'pattern': r'\b%s(?=%s\((?!\:))' % (symbol, SPACES_OR_COMMENTS),
             'lbp': bp,
             'rbp': bp,
             'nud': nud_,
